@@ -208,6 +208,7 @@ def m_index(E, st, fid, t, args, dest_ty):
         if not z.sat:
             return out
         st.log('slice', mid, start, end)
+        st.maps[mid].examined = None     # a new pass over the slots begins: earlier partial scans are void
         out.append(('ret', st, ('ref', mut, ('slice', mid, start, end))))
         return out
     # opaque array / slice of user data
@@ -253,6 +254,7 @@ def m_iter(E, st, fid, t, args, dest_ty):
     s = _slice_of(E, st, args[0])
     if s is not None:
         mid, lo, hi, mut = s
+        st.maps[mid].examined = None     # a new pass over the slots begins
         return ret(st, ('sliceit', mid, lo, hi, mut and 'mut' in t['callee']['name']))
     ety = None
     if dest_ty and dest_ty.get('k') == 'adt' and dest_ty['args']:
@@ -1064,7 +1066,7 @@ def m_opt_eq(E, st, fid, t, args, dest_ty):
             elif ca is None or cb is None:
                 out.append(('ret', s2, FALSE))
             else:
-                ta, tb = E.tag_of(ca[1]), E.tag_of(cb[1])
+                ta, tb = E.rtag(s2, ca[1]), E.rtag(s2, cb[1])
                 s2.log('user', 'core::cmp::PartialEq::eq', (ta, tb))
                 E.stats['user_calls'] += 1
                 out.extend(escape(E, s2, 'user', 'PartialEq::eq'))
@@ -1077,13 +1079,24 @@ def m_opt_eq(E, st, fid, t, args, dest_ty):
         '?core::cmp::PartialEq::eq', '?core::cmp::PartialEq::ne'],
        'user PartialEq on the referents: arbitrary answer, may unwind')
 def m_ref_eq(E, st, fid, t, args, dest_ty):
-    ta, tb = E.tag_of(args[0]), E.tag_of(args[1])
+    ta, tb = E.rtag(st, args[0]), E.rtag(st, args[1])
     neg = t['callee']['name'] == 'ne'
     st.log('user', 'core::cmp::PartialEq::eq', (ta, tb))
     E.stats['user_calls'] += 1
     out = escape(E, st, 'user', 'PartialEq::eq')
     tag = ('eq', ta, tb)
     out.append(('ret', st, ('boolu', ('not', tag) if neg else tag)))
+    return out
+
+
+@model('?core::borrow::Borrow::borrow',
+       'user Borrow: an arbitrary reference (may unwind); its provenance records what was borrowed')
+def m_borrow(E, st, fid, t, args, dest_ty):
+    src = E.rtag(st, args[0])
+    st.log('user', 'core::borrow::Borrow::borrow', (src,))
+    E.stats['user_calls'] += 1
+    out = escape(E, st, 'user', 'Borrow::borrow')
+    out.append(('ret', st, ('ref', False, ('opq', ('borrow', src)))))
     return out
 
 
